@@ -154,6 +154,24 @@ def run(ctx: Ctx):
                        construct=f"{fn}:{h.kind}:{alpha_key(text)}")
             if not bad:
                 ctx.ob("C14.a", lab, True, fi.loc, f"{len(per)} batch-global op(s), all justified" if per else "no batch-global op reaches the output")
+    # helper methods reached through loops are not always part of the inlined forward's value: read each in-scope method on its own too
+    n_meth = 0
+    for name, mi in sorted(ctx.repo.modules.items()):
+        if not in_scope(name):
+            continue
+        for cn, c in sorted(mi.classes.items()):
+            for mn, mfi in sorted(c.methods.items()):
+                if mn == "forward" or mn.startswith("__"):
+                    continue
+                itm = vg.Interp(ctx.repo, c, inline_policy=lambda f, a: False)
+                try:
+                    frm = itm.run_function(mfi)
+                except (RecursionError, AnalysisError):
+                    continue
+                retsm = [itm.sym(v) for _, v in frm.returns if v is not None]
+                n_meth += 1
+                n_views += reinterpreting_views(ctx, f"{cn}.{mn}", mfi, retsm)
+    ctx.extra["methods_read_for_views"] = n_meth
     ctx.extra["forwards_analysed"] = n_forward
     ctx.extra["axis_order_views_checked"] = n_views
     if n_views < 1:
@@ -163,6 +181,8 @@ def run(ctx: Ctx):
     ctx.sample({"forwards_analysed": n_forward, "hits": n_hits, "td_i_row_uniform": uni_i})
     normalization(ctx)
     feature_axis(ctx)
+    einsum_batch_symbol(ctx)
+    env_masks_per_instance(ctx)
     deterministic_inference(ctx)
     stateless_forward(ctx)
     submodules_registered(ctx)
@@ -231,6 +251,20 @@ def reinterpreting_views(ctx: Ctx, lab: str, fi, rets) -> int:
             if n.id in seen or not (n.op == "meth" and n.args[1] in ("view", "reshape") and len(n.args) >= 5):
                 continue
             seen.add(n.id)
+            # second clause: the size of axis 0 of the operand's own tensor (the batch size) stays the FIRST size of the view --
+            # `x.view(heads, batch, ...)` of a batch-major x reads batch-major memory as head-major
+            # (lineage-free: the size named is axis 0 of the very operand of the view; leading sizes of literal 1 do not move anything)
+            opd_ = nf.strip(n.args[0])
+            if True:
+                for pos_, a_ in enumerate(n.args[2:]):
+                    d_ = nf.dim_of(a_) if isinstance(a_, vg.S) else None
+                    if d_ is not None and d_[1] == 0 and nf.strip(d_[0]).id == opd_.id and pos_ > 0 and not all(vg.is_const(x_, 1) for x_ in n.args[2:2 + pos_]):
+                        n_sites += 1
+                        site = vg.site_of(n)
+                        ctx.ob("C14.f", f"{lab}:view-keeps-the-batch-axis-first@{vg.show(n.args[0], 2)[:40]}", False, f"{site[0]}:{site[1]}" if site else fi.loc,
+                               f"view(..., {vg.show(a_, 2)} at position {pos_}, ...) of {vg.show(n.args[0], 2)[:40]}: the operand's memory is batch-major, the view declares another axis "
+                               "outermost -- rows (heads, steps) of different instances are mixed for batch size > 1; axes are moved by permute / transpose, not by view",
+                               construct=f"{lab}:batch-axis-not-first-in-view")
             s0, s1 = nf.dim_of(n.args[2]), nf.dim_of(n.args[3])
             if s0 is None or s1 is None or not isinstance(s0[1], int) or not isinstance(s1[1], int):
                 continue
@@ -442,6 +476,60 @@ def stateless_forward(ctx: Ctx):
                                        construct=f"{cn}.{m.name}:module-state:{e.attr}")
     if n_m < 100:
         raise AnalysisError(f"only {n_m} methods scanned for module state")
+
+
+def einsum_batch_symbol(ctx: Ctx):
+    """C14.j einsum / einops.einsum patterns: every DATA operand (anything but a module parameter `self.x`) names its first axis
+    with the symbol the output uses for its first axis -- the batch.  `"bs m o, b m e -> bs o e"` type-checks and runs, but `b`
+    is then an index that appears in one operand only and is summed away: every instance receives the sum over the whole batch
+    (identical to the intended result for a batch of one).  All einsum calls under rl4co/models and rl4co/envs."""
+    n = 0
+    for name, mi in sorted(ctx.repo.modules.items()):
+        if not (name.startswith("rl4co.models") or name.startswith("rl4co.envs")):
+            continue
+        for c in ast.walk(mi.tree):
+            if not (isinstance(c, ast.Call) and ((isinstance(c.func, ast.Name) and c.func.id == "einsum") or (isinstance(c.func, ast.Attribute) and c.func.attr == "einsum"))):
+                continue
+            strs = [a for a in c.args if isinstance(a, ast.Constant) and isinstance(a.value, str)]
+            if len(strs) != 1 or "->" not in strs[0].value:
+                continue
+            pat = strs[0].value
+            ops_ = [a for a in c.args if a is not strs[0]]
+            lhs, rhs = pat.split("->")
+            ins = [x.strip() for x in lhs.split(",")]
+            if len(ins) != len(ops_):
+                continue
+            spaced = any(" " in x for x in ins) or " " in rhs.strip()
+
+            def toks(x):
+                return x.split() if spaced else list(x.replace(" ", ""))
+            out = toks(rhs.strip())
+            if not out:
+                continue
+            bsym = out[0]
+            bad = []
+            for expr, ix in zip(ops_, ins):
+                is_param = isinstance(expr, ast.Attribute) and isinstance(expr.value, ast.Name) and expr.value.id == "self"
+                t = toks(ix)
+                if not is_param and t and t[0] != bsym:
+                    bad.append(f"{ast.unparse(expr)[:30]}: '{ix}'")
+            n += 1
+            ctx.ob("C14.j", f"{mi.relpath}:{c.lineno}:einsum-batch-symbol", not bad, f"{mi.relpath}:{c.lineno}",
+                   f"pattern '{pat}': every data operand leads with the output's batch symbol '{bsym}'" if not bad else
+                   f"pattern '{pat}': operand(s) {bad} lead with another symbol than the output's '{bsym}' -- that index is summed over, mixing the instances of the batch",
+                   construct=f"einsum:{pat.replace(' ', '')}:batch-symbol")
+    if n < 6:
+        raise AnalysisError(f"einsum sites lost: {n} < 6")
+
+
+def env_masks_per_instance(ctx: Ctx):
+    """C14.k the feasibility mask the policy reads is part of the inference path: a mask decided by a batch-wide Python branch
+    (`if not td['open_route'].all(): ...`) or a reduction over the batch axis makes the greedy solution of an instance depend on
+    its batch-mates.  The batch-axis engine of C04 on the `action_mask` sinks (`get_action_mask` and the cell written by
+    `_step`) of every environment."""
+    from .C04 import batch_rows
+    batch_rows(ctx, "C14.k", meths=("_step", "get_action_mask"),
+               sink_ok=lambda cname, meth, sink: sink == "return" or sink == "cell:action_mask")
 
 
 def _feeds_module(root, node) -> bool:
